@@ -177,6 +177,25 @@ pub fn board_fields(b: &ChessBoard, flags: u32, uni: Option<&[BoardMove]>) -> St
     }
     if flags & F_SANS != 0 {
         f.push(format!("sans={}", moves.iter().map(|x| san_of(b, &x.1)).collect::<Vec<_>>().join(",")));
+        // asking for the notation properties of an ILLEGAL move must give an error: king steps and hops, and a few
+        // displaced destinations of every own piece, that are not in the legal list
+        let legal: std::collections::HashSet<String> = moves.iter().map(|x| mv_text(&x.1)).collect();
+        let mut probes: Vec<String> = vec![];
+        for s in b.get_color_mask(b.get_side_to_move()) {
+            let t = match b.get_piece_type_on(s) { Some(t) => t, None => continue };
+            let si = s.to_int() as i32;
+            let ds: Vec<i32> = if t == PieceType::King { vec![1, -1, 8, -8, 7, -7, 9, -9, 2, -2, 16, -16] } else { vec![1, 8, 17, -9] };
+            for dd in ds {
+                let di = si + dd;
+                if !(0..64).contains(&di) { continue }
+                let m = BoardMove::MovePiece(PieceMove::new(t, s, sq(di as u8), None).unwrap());
+                let txt = mv_text(&m);
+                if legal.contains(&txt) { continue }
+                let r = match quiet(|| MovePropertiesOnBoard::new(&m, b)) { Ok(Ok(_)) => "OK", Ok(Err(_)) => "ERR", Err(_) => "PANIC" };
+                probes.push(format!("{}:{}", txt, r));
+            }
+        }
+        f.push(format!("sanill={}", probes.join(",")));
     }
     if flags & F_RENDER != 0 {
         f.push(format!("rs={}", hex(&strip_ansi(&b.render_straight()))));
